@@ -162,6 +162,16 @@ reg(
     "Trusted: pdv/extract.markov_joint_mp; disable_jit turns the scan in sample() into a Python loop.",
 )
 
+reg(
+    "C14",
+    "metamorphic monitor: the same problem through dense / isotropic / block-diagonal models (and d independent scalar dense solves), all embedded in one dense layout and compared; adaptive dense/isotropic step counts compared",
+    "TS0 on arbitrary nonlinear polynomial problems (dense == isotropic in all calibration modes incl. the scale; dense vs "
+    "blockdiag means in uncalibrated/MLE, covariances in uncalibrated, mean_d sigma_d^2 = sigma_dense^2), TS1 on decoupled "
+    "problems (blockdiag == independent scalar dense solves, all modes), TS1 on scalar-Jacobian problems (isotropic == dense), "
+    "adaptive dense/isotropic pairs (identical step counts and values); three strategies, nu 1..6, random fixed grids.",
+    "Both sides are float64 results of the repository: tolerance 1e-6 (1e-4 for nu>=5), measured deviations <= 8e-8.",
+)
+
 NOT_BUILT_REASON = "check under construction in this session; not yet registered"
 
 
